@@ -30,7 +30,8 @@ type config struct {
 	// (100000 per minute); the concurrency quota is its parent alone
 	Mixed bool `json:"fixed_window_child,omitempty"`
 	// Second: the flow also consults an independent fixed-window quota that never refuses (100000 per minute),
-	// through a second Limiter placed "after" or "before" the Limiter of the concurrency quota
+	// through a second Limiter placed "after" or "before" the Limiter of the concurrency quota; "conc-after" /
+	// "conc-before": that second quota is a concurrency quota too (100000 slots, never refuses)
 	Second string `json:"second_quota,omitempty"`
 }
 
@@ -65,6 +66,10 @@ func (c config) quotaYAML() string {
 	if c.Second != "" {
 		second = "  - id: QF\n    filter:\n      url: \"h.com/*\"\n    strategy:\n      fixed_window:\n        max: 100000\n        interval: 1\n        interval_unit: minute\n"
 	}
+	if strings.HasPrefix(c.Second, "conc-") {
+		// the second quota is a concurrency quota as well (it never refuses: 100000 slots, one hour)
+		second = "  - id: QF\n    filter:\n      url: \"h.com/*\"\n    strategy:\n      concurrent:\n        max_request_count: 100000\n        request_expiration_sec: 3600\n        gc_interval_sec: 3600\n"
+	}
 	if !c.Parent {
 		return "quotas:\n  - id: QC\n    filter:\n      url: \"h.com/*\"\n" + conc("    ", c.Max, c.ExpireSec, c.GCSec) + second
 	}
@@ -91,7 +96,7 @@ func (c config) flowYAML() string {
 		return s
 	}
 	extra := "    - from:\n" + procEnd("LimF", "above_limit") + "      to:\n" + procEnd("Gen429", "")
-	if c.Second == "after" {
+	if strings.HasSuffix(c.Second, "after") {
 		// Lim/below_limit -> LimF ; LimF/below_limit -> Flt
 		y = strings.Replace(y, "          name: Lim\n          condition: below_limit\n      to:\n        processor:\n          name: Flt\n",
 			"          name: Lim\n          condition: below_limit\n      to:\n        processor:\n          name: LimF\n"+extra+"    - from:\n"+procEnd("LimF", "below_limit")+"      to:\n"+procEnd("Flt", ""), 1)
@@ -219,7 +224,7 @@ func genConfig() *rapid.Generator[config] {
 				c.Max, c.ExpireSec, c.GCSec = c.PMax, c.PExpire, c.PGC
 			}
 		}
-		c.Second = rapid.SampledFrom([]string{"", "", "after", "before"}).Draw(t, "second")
+		c.Second = rapid.SampledFrom([]string{"", "", "after", "before", "conc-after", "conc-before"}).Draw(t, "second")
 		return c
 	})
 }
@@ -423,8 +428,12 @@ func runHistoryInner(h hist) (nontrivial bool, classes map[string]int, err error
 	// every concurrent strategy starts one collector goroutine; wait until each has armed its first timer
 	// (a quota whose collector never arms a timer is not an infrastructure problem: the history goes on and
 	// the first slot that is not given back at its expiry is reported as the violation it is)
+	nWait := nq
+	if strings.HasPrefix(h.Config.Second, "conc-") {
+		nWait++ // the second concurrency quota has a collector of its own
+	}
 	lastNQ, lastStream = nq, s
-	if e := clk.WaitRegistrations("runGC", nq); e != nil {
+	if e := clk.WaitRegistrations("runGC", nWait); e != nil {
 		classes["collector-not-armed"]++
 	}
 	// collector timers: identify which quota each belongs to by its period (child timer registered per strategy)
@@ -713,6 +722,11 @@ func TestRegressionFixedDefects(t *testing.T) {
 		{Config: config{Max: 3, ExpireSec: 1, GCSec: 1}, Steps: []step{{Op: "req", Txn: 1}, {Op: "req", Txn: 2}, adv(time.Second), {Op: "req", Txn: 3}, {Op: "req", Txn: 4}, adv(time.Second), {Op: "req", Txn: 5}, {Op: "req", Txn: 6}}},
 		// child's slot already collected: the response never released the parent's slot
 		{Config: config{Max: 1, ExpireSec: 1, GCSec: 1, Parent: true, PMax: 1, PExpire: 2, PGC: 1}, Steps: []step{{Op: "req", Txn: 1}, adv(2 * time.Second), {Op: "resp", Txn: 1}, {Op: "req", Txn: 2}}},
+		// two concurrency quotas on one filter: the response released only the last one of the shared system flow (60d05fa)
+		{Config: config{Max: 1, Second: "conc-after"}, Steps: []step{{Op: "req", Txn: 1}, {Op: "resp", Txn: 1}, {Op: "req", Txn: 2}, {Op: "resp", Txn: 2}, {Op: "req", Txn: 3}}},
+		{Config: config{Max: 1, Second: "conc-before"}, Steps: []step{{Op: "req", Txn: 1}, {Op: "resp", Txn: 1}, {Op: "req", Txn: 2}}},
+		// a transaction the proxy reports as failed under a fixed-window internal limit of the concurrency quota
+		{Config: config{Max: 1, Parent: true, PMax: 1, Mixed: true}, Steps: []step{{Op: "req", Txn: 1}, {Op: "err", Txn: 1}, {Op: "req", Txn: 2}}},
 	}
 	for _, h := range cases {
 		r.Case()
